@@ -55,6 +55,9 @@ def py_index(ix):
 
 def scalar_of(q, variant):
     f = to_frac(q)
+    if isinstance(f, tuple):
+        c = complex(float(f[0]), float(f[1]))
+        return [c, numpy.complex128(c)][variant % 2]
     kinds = []
     if f.denominator == 1:
         kinds += [int(f), numpy.int64(int(f))]
@@ -83,15 +86,16 @@ class Replayer:
         self.slicewise = slicewise
         self.objs = []
         for o in init_objs:
-            vals = numpy.array([float(to_frac(v)) for v in o["vals"]]).reshape(o["shape"]) if o["shape"] else \
-                numpy.array(float(to_frac(o["vals"][0])))
+            nums = [to_num(v) for v in o["vals"]]
+            dt = complex if any(isinstance(v, complex) for v in nums) else float
+            vals = numpy.array(nums, dtype=dt).reshape(o["shape"]) if o["shape"] else numpy.array(nums[0], dtype=dt)
             if o["k"] == "U":
                 self.objs.append(algopy.UTPM(vals.copy()))
             elif o["k"] == "Z":
                 self.objs.append(vals.copy())
             else:
                 a = vals.copy()
-                if variant % 3 == 1 and all(to_frac(v).denominator == 1 for v in o["vals"]):
+                if variant % 3 == 1 and all(not isinstance(to_frac(v), tuple) and to_frac(v).denominator == 1 for v in o["vals"]):
                     a = a.astype(int)
                 self.objs.append(a)
 
@@ -206,6 +210,8 @@ class Replayer:
             for n, (v, q) in enumerate(zip(flat, so["vals"])):
                 if not close(v, to_frac(q)):
                     raise Mismatch("value", "object %d element %d: got %r, spec %s" % (k + 1, n, v, to_frac(q)))
+            if so.get("real") is False and not numpy.iscomplexobj(d):
+                raise Mismatch("dtype", "object %d: the imaginary part was dropped (dtype %s)" % (k + 1, d.dtype))
             ad = addresses(d)
             for n, (adr, c) in enumerate(zip(ad, so["cells"])):
                 key = (so["buf"], c)
@@ -294,10 +300,12 @@ def machine_check(rep, configs, pid, variants=(0,), simulate=None):
         name = c.pop("name")
         sim = c.pop("simulate", None)
         depth = c.pop("depth", None)
+        module = c.get("module", "MC_UTPM")
         kw = {}
         if sim:
             kw = dict(simulate=sim, depth=depth or c.get("maxlen", 3) + 1, seed=rep.seed)
-        res = run_tlc("MC_UTPM", cfg(**c), workers=16, timeout=3000, **kw)
+        module = c.pop("module", "MC_UTPM")
+        res = run_tlc(module, cfg(**c), workers=16, timeout=3000, **kw)
         if res.violated and res.violated != "EmitState":
             raise Machinery("spec property %s violated in %s:\n%s" % (res.violated, name, res.out[-2000:]))
         tlc_ok(res, "MC_UTPM " + name)
